@@ -34,6 +34,19 @@ def adversarial_probs(rng, n):
     return ps
 
 
+def pre_build(ctx):
+    """regenerate coq/gen/Gen_hp.v (return expressions of Int/Float.prob_to_value) from /repo's source"""
+    import os
+    from ktverif import translate_hp
+    text, ip, fp = translate_hp.main(os.environ.get("KT_REPO", "/repo"))
+    os.makedirs("/verif/coq/gen", exist_ok=True)
+    path = "/verif/coq/gen/Gen_hp.v"
+    old = open(path).read() if os.path.exists(path) else ""
+    if old != text:
+        open(path, "w").write(text)
+    ctx.notes.append(dict(int_prob_to_value=ip, float_prob_to_value=fp))
+
+
 # ------------------------------------------------------------------ generation
 def gen_hp(rng):
     import keras_tuner as kt
